@@ -46,6 +46,8 @@ func runC20(c *Ctx) {
 	c.guard("R20-piece", func() { c20Piece(c) })
 	c.guard("R20-subset", func() { c20Subset(c) })
 	c.guard("R20-book", func() { c20Book(c) })
+	r.Rule("R20-key", "the key a book reply is filed under and looked up with keeps the leading FEN fields the legality of the reply depends on (placement and side to move for every book; castling rights and en passant target too for books built from played lines)", 2)
+	c.guard("R20-key", func() { c20Key(c) })
 }
 
 func inEnginePkgs(fn *ssa.Function) bool {
@@ -387,6 +389,30 @@ func subsetOfLegal(v ssa.Value, seen map[ssa.Value]bool) bool {
 		if strings.HasPrefix(f.Name(), "truncate[") {
 			return subsetOfLegal(x.Call.Args[0], seen)
 		}
+		// a helper of the same package the filtering was moved into: every list it returns is a filtered view of
+		// a list-typed parameter that is handed a filtered view
+		if caller := x.Parent(); caller != nil && f.Blocks != nil && f.Pkg != nil && f.Pkg == caller.Pkg && f.Signature.Results().Len() == 1 {
+			okAll, n := true, 0
+			for _, hb := range f.Blocks {
+				for _, hi := range hb.Instrs {
+					ret, isRet := hi.(*ssa.Return)
+					if !isRet || len(ret.Results) != 1 {
+						continue
+					}
+					n++
+					hseen := map[ssa.Value]bool{}
+					for i, hp := range f.Params {
+						if i < len(x.Call.Args) && types.Identical(hp.Type(), ret.Results[0].Type()) && subsetOfLegal(x.Call.Args[i], seen) {
+							hseen[hp] = true // seen => accepted
+						}
+					}
+					if !subsetOfLegal(ret.Results[0], hseen) {
+						okAll = false
+					}
+				}
+			}
+			return okAll && n > 0
+		}
 	case *ssa.Phi:
 		for _, e := range x.Edges {
 			if !subsetOfLegal(e, seen) {
@@ -560,6 +586,11 @@ func c20Subset(c *Ctx) {
 			}
 			if sl, isSlice := ins.(*ssa.Slice); isSlice && (sl.Low != nil || sl.High != nil) {
 				if st, ok := sl.X.Type().Underlying().(*types.Slice); ok && namedOf(st.Elem()) != nil && core.ObjName(namedOf(st.Elem()).Obj()) == "Move" {
+					shrinks = true
+				}
+			}
+			if call, isCall := ins.(*ssa.Call); isCall && !shrinks {
+				if h := call.Call.StaticCallee(); h != nil && h.Blocks != nil && h.Pkg == fpm.Pkg && narrowsMoveList(h, 0) {
 					shrinks = true
 				}
 			}
@@ -928,4 +959,33 @@ func (c *Ctx) genEqual(root *ssa.Function, v ssa.Value, at *ssa.BasicBlock, dept
 		return nil, nil, nil, false
 	}
 	return arg(hp), arg(ht), arg(hx), true
+}
+
+// narrowsMoveList: the function (or a helper of its package it calls) filters a move list with a closure
+// predicate or re-slices one.
+func narrowsMoveList(f *ssa.Function, depth int) bool {
+	if depth > 2 {
+		return false
+	}
+	for _, b := range f.Blocks {
+		for _, ins := range b.Instrs {
+			if call, isCall := ins.(*ssa.Call); isCall && call.Call.StaticCallee() != nil {
+				h := call.Call.StaticCallee()
+				if h.Name() == "FindMoves" && len(call.Call.Args) == 2 {
+					if _, isClosure := stripConv(call.Call.Args[1]).(*ssa.MakeClosure); isClosure {
+						return true
+					}
+				}
+				if h.Blocks != nil && h.Pkg == f.Pkg && h != f && narrowsMoveList(h, depth+1) {
+					return true
+				}
+			}
+			if sl, isSlice := ins.(*ssa.Slice); isSlice && (sl.Low != nil || sl.High != nil) {
+				if st, ok := sl.X.Type().Underlying().(*types.Slice); ok && namedOf(st.Elem()) != nil && core.ObjName(namedOf(st.Elem()).Obj()) == "Move" {
+					return true
+				}
+			}
+		}
+	}
+	return false
 }
